@@ -315,6 +315,10 @@ def run(rep):
     rep.clause("R-C15-dispatch", "all kernels receive the same cutoff (shared with C15)")
     rep.not_decided += ["every dB figure, the fit constants of calculate_cutoff, image rejection: numerical properties of the filter"]
     rep.trusted += ["syn parser", "sympy"]
+    # everything else a working resampler needs (see rules/shares.py: a change that makes the resampler panic, drop frames, corrupt state on a
+    # rejected call or forward a trait-object call wrongly breaks this property as well)
+    import shares as _shares
+    _shares.complete(rep)
     return rep.finish(level="other", explanation=(
         "NECESSARY STRUCTURAL CONDITIONS ONLY. Attenuation figures are not decided. Decided: the mechanisms that make anti-aliasing possible at all — the cutoff is scaled "
         "by the ratio when down-sampling and never raised, the FFT unit filters relative to the lower Nyquist and truncates the spectrum, the selected window is the "
